@@ -202,7 +202,111 @@ def run_kernels(ctx, ev):
                           'kernel_disagreements': n_bad, 'kernels_disagreeing': sorted(seen_bad), 'routines_without_harness_or_reference': sorted(untested), 'kernels_raising_SIGILL': sorted(sigill),
                           'host_flags': meta['host_flags'], 'kernel_dirs': sorted(set(k['dir'] for k in meta['kernels']))})
 
+# ---- library variants: another tuning table, other configure options ----
+OPTIONS = [('assert', '--enable-assert'), ('alloca-debug', '--enable-alloca=debug'), ('alloca-malloc-reentrant', '--enable-alloca=malloc-reentrant'),
+           ('alloca-alloca', '--enable-alloca=alloca'), ('fat', '--enable-fat')]
+
+def build_variant(name, mparam=None, conf=None):
+    """libmpir.a and the driver built from /repo's tree with another gmp-mparam.h and/or configure options; cached."""
+    import hashlib
+    key = hashlib.sha256((vlib.tree_hash() + '|' + name + '|' + (open(mparam).read() if mparam else '') + '|' + (conf or '')).encode()).hexdigest()[:16]
+    d = os.path.join(vlib.CACHE, 'var-%s-%s' % (re.sub(r'[^A-Za-z0-9]+', '_', name)[:40], key))
+    if os.path.exists(os.path.join(d, 'ok')):
+        return d
+    with vlib.Lock('var-' + name[:30].replace('/', '_')):
+        if os.path.exists(os.path.join(d, 'ok')):
+            return d
+        shutil.rmtree(d, ignore_errors=True)
+        for old in glob.glob(os.path.join(vlib.CACHE, 'var-%s-*' % re.sub(r'[^A-Za-z0-9]+', '_', name)[:40])):
+            shutil.rmtree(old, ignore_errors=True)        # an older build of the same variant
+        os.makedirs(os.path.join(d, 'include'))
+        scratch = vlib.scratch_dir('mpir-verif-var-')
+        try:
+            if conf:
+                # configure wants every Makefile.in (tests, tune, doc too)
+                vlib.sh(['rsync', '-a', '--exclude', '.git', '--exclude', '*.o', '--exclude', '*.lo', '--exclude', '*.la', '--exclude', '.libs', '--exclude', '.deps', vlib.REPO + '/', scratch + '/'])
+            else:
+                vlib.copy_repo(scratch, with_objects=False)
+            if conf:
+                for f in ('config.status', 'config.h', 'Makefile', 'libtool', 'mpir.h', 'config.m4'):
+                    try: os.unlink(os.path.join(scratch, f))
+                    except OSError: pass
+                vlib.sh('./configure CFLAGS=-Wno-error %s' % conf, cwd=scratch, timeout=1200)
+            if mparam:
+                dst = os.path.join(scratch, 'gmp-mparam.h')
+                try: os.unlink(dst)
+                except OSError: pass
+                shutil.copy(os.path.join(scratch, os.path.relpath(mparam, vlib.REPO)), dst)
+            rc, out = vlib.sh('make -j%d SUBDIRS="%s"' % (vlib.NCPU, vlib.LIB_SUBDIRS), cwd=scratch, timeout=2400, check=False)
+            if rc != 0:
+                raise RuntimeError('BUILD-FAILED (variant %s):\n%s' % (name, out[-3000:]))
+            vlib.finish_impl(d, scratch)
+        finally:
+            shutil.rmtree(scratch, ignore_errors=True)
+        open(os.path.join(d, 'ok'), 'w').write('ok\n')
+    return d
+
+class VCtx:
+    """the part of a check context the case generators of the other properties use"""
+    def __init__(self, ctx, name, thr):
+        self.seed = ctx.seed; self.tier = 'quick'; self.pid = 'C14/' + name; self.thr = thr; self.extra_cov = {}; self.extra_violations = []
+        import random
+        self._r = random
+    def rng(self, stream):
+        return self._r.Random('%s/%s/%s' % (self.seed, self.pid, stream))
+
+def battery(ctx, name, impl, thr, per_module):
+    """cases of C01, C02, C07, C08, C09 aimed at the crossovers of thr, run on the variant and compared with the models."""
+    import importlib, checker
+    bad_all = []; n = 0
+    for modname in ('c01', 'c02', 'c07', 'c08', 'c09'):
+        mod = importlib.import_module(modname)
+        v = VCtx(ctx, name, thr)
+        cs = list(mod.cases(v, 'quick'))
+        r = v.rng('sample')
+        if len(cs) > per_module:
+            cs = r.sample(cs, per_module)
+        c2 = checker.Ctx('C14', 'quick', ctx.seed)
+        c2.impl = impl; c2.canon = getattr(mod, 'canon_impl', None); c2.matcher = getattr(mod, 'matcher', None)
+        bad, io, mo = checker.diff_cases(c2, cs, timeout=1500)
+        n += len(cs)
+        for (i, a, b) in bad[:2]:
+            bad_all.append((cs[i][0], a, b, modname))
+    return n, bad_all
+
+def run_variants(ctx, ev):
+    import gen_tables
+    pinned, tabs, ship = gen_tables.main()
+    quick = ctx.tier == 'quick'
+    tables = [(name, dd) for name, dd, ft in ship]
+    rot = ctx.seed % max(1, len(tables))
+    chosen_t = [tables[rot]] if quick else tables
+    chosen_o = [OPTIONS[ctx.seed % len(OPTIONS)]] if quick else OPTIONS
+    per = 400 if quick else 1500
+    done = []
+    for name, dd in chosen_t:
+        thr = dict(pinned); thr.update(dd)
+        impl = build_variant('table:' + name, mparam=os.path.join(vlib.REPO, name))
+        n, bad = battery(ctx, name, impl, thr, per)
+        if not quick: shutil.rmtree(impl, ignore_errors=True)     # disk: keep only what the quick tier re-uses
+        done.append({'variant': 'gmp-mparam.h = ' + name, 'calls': n, 'disagreements': len(bad)})
+        for ln, a, b, m in bad[:2]:
+            ev.append({'kind': 'tuning-table', 'cases': [ln[:100000]], 'implementation_output': str(a)[:1500], 'model_output': str(b)[:1500], 'note': 'library built with %s differs from the model (%s cases)' % (name, m),
+                       'key': name + ' ' + ln[:80], 'theorem': 'C14 (identical values under every shipped tuning table)'})
+    for oname, conf in chosen_o:
+        impl = build_variant('option:' + oname, conf=conf)
+        n, bad = battery(ctx, oname, impl, dict(pinned), per)
+        if not quick: shutil.rmtree(impl, ignore_errors=True)
+        done.append({'variant': 'configure ' + conf, 'calls': n, 'disagreements': len(bad)})
+        for ln, a, b, m in bad[:2]:
+            ev.append({'kind': 'build-option', 'cases': [ln[:100000]], 'implementation_output': str(a)[:1500], 'model_output': str(b)[:1500], 'note': 'library configured with %s differs from the model (%s cases)' % (conf, m),
+                       'key': oname + ' ' + ln[:80], 'theorem': 'C14 (identical values under every build option)'})
+    ctx.extra_cov['library_variants'] = done
+    ctx.extra_cov['variants_in_this_tier'] = 'quick: one shipped table and one configure option, rotating with VERIF_SEED; thorough: all %d tables and %d options' % (len(tables), len(OPTIONS))
+    ctx.extra_cov['extra_evaluations'] = ctx.extra_cov.get('extra_evaluations', 0) + sum(x['calls'] for x in done)
+
 def extra(ctx):
     ev = getattr(ctx, 'extra_violations', [])
     run_kernels(ctx, ev)
+    run_variants(ctx, ev)
     ctx.extra_violations = ev
